@@ -200,27 +200,76 @@ def verify_integrate(src, reg, prop, callbacks=0, fixed_step=False, extra_inv=()
 
 
 # ----------------------------------------------------------------------------------------------------------------
-# dense output kept (forward runs): one interpolant per recorded step, covering exactly the recorded grid
+# dense output kept: one interpolant per recorded step, covering exactly the recorded grid (both run directions)
 # ----------------------------------------------------------------------------------------------------------------
 SOL = "self._OdeSystem__sol"
 DENSE_REP = [
-    # DO_Inv + CacheInv of the DenseOutput object (props/dense.py), restated on self.__sol
+    # DO_Inv of the DenseOutput object (props/dense.py), restated on self.__sol, with adjacency
     "len(SOL.t_eval) == len(SOL.y_interpolants)",
     "forall(lambda i, j: implies(0 <= i and i < j and j < len(SOL.t_eval), SOL.t_eval[i] < SOL.t_eval[j]))",
     "forall(lambda i: implies(0 <= i and i < len(SOL.t_eval), SOL.y_interpolants[i].t1 == SOL.t_eval[i]))",
     "forall(lambda i: implies(1 <= i and i < len(SOL.t_eval), SOL.y_interpolants[i].t0 == SOL.t_eval[i - 1]))",
+    "SOL._DenseOutput__t_decreasing == False",
     # exactly one piece per recorded step: piece i spans [t_i, t_{i+1}]
     "len(SOL.t_eval) == self.counter",
     "forall(lambda i: implies(0 <= i and i < self.counter, SOL.t_eval[i] == self.__t[i + 1] and SOL.y_interpolants[i].t0 == self.__t[i]))",
+    # the whole recorded trajectory runs in increasing time (a forward call on a system that has only been integrated forward)
+    "forall(lambda i: implies(1 <= i and i <= self.counter, self.__t[i] > self.__t[i - 1]))",
 ]
 DENSE_REP = [c.replace("SOL", SOL) for c in DENSE_REP]
+# runs in decreasing time: pieces are inserted at the front, piece i is recorded step counter - 1 - i, it ends (lower end) at t_eval[i]
+DENSE_REP_B = [
+    "len(SOL.t_eval) == len(SOL.y_interpolants)",
+    "forall(lambda i, j: implies(0 <= i and i < j and j < len(SOL.t_eval), SOL.t_eval[i] < SOL.t_eval[j]))",
+    "forall(lambda i: implies(0 <= i and i < len(SOL.t_eval), SOL.y_interpolants[i].t1 == SOL.t_eval[i]))",
+    "forall(lambda i: implies(0 <= i and i < len(SOL.t_eval) - 1, SOL.y_interpolants[i].t0 == SOL.t_eval[i + 1]))",
+    "implies(len(SOL.t_eval) >= 2, SOL._DenseOutput__t_decreasing)",
+    "len(SOL.t_eval) == self.counter",
+    "forall(lambda i: implies(0 <= i and i < self.counter, SOL.t_eval[i] == self.__t[self.counter - i] and SOL.y_interpolants[i].t0 == self.__t[self.counter - i - 1]))",
+    # the whole recorded trajectory runs in decreasing time (a backward call on a system that has only been integrated backward)
+    "forall(lambda i: implies(1 <= i and i <= self.counter, self.__t[i] < self.__t[i - 1]))",
+]
+DENSE_REP_B = [c.replace("SOL", SOL) for c in DENSE_REP_B]
 
 
-def verify_integrate_dense(src, reg, prop, callbacks=0):
-    """integrate() with dense output kept, forward direction: the dense output covers exactly the recorded steps, on normal
-    and on exceptional exit."""
-    from . import dense as DN
+def dense_contract(callbacks=0, direction=1, extra_inv=(), extra_post=()):
+    """integrate()'s contract with dense output kept (events None)"""
+    rep = DENSE_REP if direction > 0 else DENSE_REP_B
+    c = make_contract(callbacks, extra_inv=extra_inv, extra_post=extra_post)
+    c.sorts = dict(c.sorts)
+    selfsort = c.sorts["self"]
+    fields = dict(selfsort[2])
+    fields["_OdeSystem__dense_output"] = ("const", True)
+    c.sorts["self"] = ("obj", "OdeSystem", fields)
+    c.requires = c.requires + rep + ["tf_ > self.__t[self.counter]" if direction > 0 else "tf_ < self.__t[self.counter]"]
+    c.ensures = c.ensures + rep
+    c.ensures_exc = c.ensures_exc + rep
+    c.loops = {0: {"invariant": c.loops[0]["invariant"] + rep}}
+    return c
+
+
+def real_add_interpolant_hook(ex, src):
+    """DenseOutput.add_interpolant: the real body is executed; a literal list it creates ([t], [piece]) is re-represented afterwards as
+    a symbolic-length list (same contents)."""
     from pyvc import builtins as B
+    fi_add = src.func(F, "DenseOutput.add_interpolant")
+
+    def add_interpolant(ex_, st, ctx, args, kwargs):
+        out = ex_.call_function(fi_add, list(args), dict(kwargs), st, ctx)
+        for s2, v in out:
+            sf = s2.obj(args[0]).fields
+            for fld, elem in (("t_eval", "real"), ("y_interpolants", "piece")):
+                o = s2.obj(sf[fld]) if isinstance(sf[fld], Ref) else None
+                if o is not None and o.kind == "list":
+                    sf[fld] = B.symlist_from_items(s2, o.items, elem, "sol_" + fld)
+        return out
+    ex.call_hooks["DenseOutput.add_interpolant"] = add_interpolant
+
+
+def verify_integrate_dense(src, reg, prop, callbacks=0, direction=1, extra_inv=(), extra_post=()):
+    """integrate() with dense output kept: the dense output covers exactly the recorded steps, on normal and on exceptional exit.
+    direction=+1: forward call on a forward trajectory; -1: backward call on a backward trajectory."""
+    from . import dense as DN
     ex = base_executor(src, reg, prop)
     install_callbacks(ex, callbacks)
     DN.install(ex)
@@ -246,33 +295,8 @@ def verify_integrate_dense(src, reg, prop, callbacks=0):
         piece = st.new_obj("CubicHermiteInterp", fields=dict(t0=t0, t1=t0 + dT, id=z3.Int(fresh_name("piece_id"))))
         return (t0 + dT, piece)
     ex.call_hooks["Integrator.dense_output"] = dense_output
-
-    def add_interpolant(ex_, st, ctx, args, kwargs):
-        # contract of DenseOutput.add_interpolant[first|forward] (proved in props/dense.py): requires adjacency, appends the piece
-        sol, t, piece = args
-        sf = st.obj(sol).fields
-        te, yi = st.obj(sf["t_eval"]), st.obj(sf["y_interpolants"])
-        n = te.fields["len"]
-        pf = st.obj(piece).fields
-        last = z3.Select(te.fields["cols"]["v"], n - 1)
-        ex_.prove(st, ctx, z3.And(pf["t1"] == t, t > pf["t0"], z3.Or(n == 0, pf["t0"] == last)), "pre@callsite", "pre@callsite:add_interpolant-adjacent-forward")
-        B._symlist_method(ex_, sf["t_eval"], "append", [t], st, ctx)
-        B._symlist_method(ex_, sf["y_interpolants"], "append", [piece], st, ctx)
-        sf["_DenseOutput__t_eval_arr_stale"] = True
-        return None
-    ex.call_hooks["DenseOutput.add_interpolant"] = add_interpolant
-    c = make_contract(callbacks)
-    c.sorts = dict(c.sorts)
-    selfsort = c.sorts["self"]
-    fields = dict(selfsort[2])
-    fields["_OdeSystem__dense_output"] = ("const", True)
-    c.sorts["self"] = ("obj", "OdeSystem", fields)
-    c.requires = c.requires + DENSE_REP + ["tf_ > self.__t[self.counter]"]
-    c.ensures = c.ensures + DENSE_REP
-    c.ensures_exc = c.ensures_exc + DENSE_REP
-    c.loops = {0: {"invariant": c.loops[0]["invariant"] + DENSE_REP}}
-    # the DenseOutput object of the pre-state: symbolic-length lists
-    st_holder = {}
+    real_add_interpolant_hook(ex, src)
+    c = dense_contract(callbacks, direction, extra_inv, extra_post)
     orig_make = ex.make_param
 
     def make_param(name, sort, st):
